@@ -271,10 +271,7 @@ func genSnap(r *Rng, tier string, n int, emit func(string)) {
 		for i := range methods {
 			methods[i] = Pick(cr, methodPool)
 		}
-		pool := make([]string, 3+cr.Intn(10))
-		for i := range pool {
-			pool[i] = genPattern(cr, Pick(cr, []int{0, 0, 40}))
-		}
+		pool := genNestedPool(cr, 3+cr.Intn(10), Pick(cr, []int{0, 0, 40}))
 		var steps []string
 		hid := 0
 		inTxn := false
